@@ -569,6 +569,16 @@ Proof.
   (* the last piece: the file is complete *)
   cbn [andb].
   set (B := assemble_snap ps') in *.
+  destruct (snap_ahead B (applied (nd S1))) eqn:Eah.
+  2:{ (* a file that is corrupt or not ahead of the node is dropped: the store keeps what it held *)
+    cbn [andb]. apply (sim_refuse n a S0 S1 _ s t L Hne Hs Et F1 G1); try reflexivity.
+    - split; [|split].
+      + intros b Hb. left. rewrite <- Psr. exact Hb.
+      + apply tr_ok_same. rewrite <- Psr. reflexivity.
+      + intros ps0 b o l Hi Hb. discriminate Hi.
+    - apply HnS; try reflexivity.
+      + intros b Hb. apply (H_stored _ _ HN0 b). rewrite <- Psr. exact Hb.
+      + intros ps0 b o l Hi Hb. discriminate Hi. }
   set (S1b := upd (fun n0 => n0 <| sr := (sr n0) <| stored := Some B |> <| incoming := None |> |>) S1) in *.
   specialize (Hver S1b eq_refl eq_refl).
   apply (sim_complete n a S0 S1 S1b s t cm B L Ha Hne Hs Et F1 G1); try reflexivity.
